@@ -257,6 +257,47 @@ def evaluate(c):
                 r = f(*strict_elems(args))
         else:
             raise ValueError(name)
+    elif op == "alias":
+        x = to_py(c["x"])
+        a = args[0]
+        name, mut = c["name"], c["key"]
+        if not isinstance(x, list):
+            raise TypeError("alias: list operand expected")
+        if name == "mul":
+            r = x * strict_int(a)
+        elif name == "rmul":
+            r = strict_int(a) * x
+        elif name == "add":
+            r = x + a
+        elif name == "radd":
+            r = a + x
+        elif name == "addself":
+            r = x + x
+        elif name == "slice":
+            r = x[slice(a[0], a[1], a[2])]
+        elif name == "list":
+            r = list(x)
+        elif name == "sorted":
+            r = sorted(x)
+        elif name == "reversed":
+            r = list(reversed(x))
+        else:
+            raise ValueError(name)
+        t = r if mut.endswith("result") else (a if mut.endswith("other") else x)
+        if mut.startswith("set"):
+            if len(t) > 0:
+                t[len(t) - 1] = 99
+        elif mut.startswith("popappend"):
+            if len(t) > 0:
+                t.pop()
+            t.append(98)
+        elif mut.startswith("append"):
+            t.append(99)
+        elif mut.startswith("clear"):
+            t.clear()
+        elif mut.startswith("insert"):
+            t.insert(0, 97)
+        r = (x, a, r)
     elif op == "sort":
         name = c["name"]
         kf = KEYS[c.get("key", "")]
